@@ -15,6 +15,7 @@ type SMT struct {
 	sortDecls []string
 	sortSeen  map[string]bool
 	funDecls  []string
+	funNames  []string
 	funSeen   map[string]bool
 	axioms    []string
 	axiomTags []string
@@ -268,7 +269,7 @@ func (s *SMT) zeroOf(t types.Type) string {
 		z := "zero_" + name
 		if !s.funSeen[z] {
 			s.funSeen[z] = true
-			s.funDecls = append(s.funDecls, fmt.Sprintf("(declare-const %s %s)", z, name))
+			s.addFun(z, fmt.Sprintf("(declare-const %s %s)", z, name))
 		}
 		return z
 	}
@@ -312,8 +313,13 @@ func (s *SMT) rangeFacts(term string, t types.Type, depth int) []string {
 func (s *SMT) declareFun(name, decl string) {
 	if !s.funSeen[name] {
 		s.funSeen[name] = true
-		s.funDecls = append(s.funDecls, decl)
+		s.addFun(name, decl)
 	}
+}
+
+func (s *SMT) addFun(name, decl string) {
+	s.funDecls = append(s.funDecls, decl)
+	s.funNames = append(s.funNames, name)
 }
 
 func (s *SMT) constLit(v constant.Value, t types.Type) (string, bool) {
@@ -376,6 +382,101 @@ func (s *SMT) Prelude() string {
 	}
 	for _, d := range s.funDecls {
 		b.WriteString(d + "\n")
+	}
+	for _, a := range s.axioms {
+		b.WriteString("(assert " + a + ")\n")
+	}
+	return b.String()
+}
+
+func smtTokens(text string, into map[string]bool) {
+	start := -1
+	for i := 0; i <= len(text); i++ {
+		var c byte = ' '
+		if i < len(text) {
+			c = text[i]
+		}
+		if c == '(' || c == ')' || c == ' ' || c == '\n' || c == '\t' {
+			if start >= 0 {
+				into[text[start:i]] = true
+				start = -1
+			}
+		} else if start < 0 {
+			start = i
+		}
+	}
+}
+
+// PreludeFor renders only the declarations, definitions and axioms that the body
+// (transitively) mentions; quantified axioms of unrelated theories make the solvers
+// return unknown on goals that do not need them.
+func (s *SMT) PreludeFor(body string) string {
+	need := map[string]bool{}
+	smtTokens(body, need)
+	type entry struct {
+		text    string
+		defines string
+		toks    map[string]bool
+		isAxiom bool
+	}
+	var es []*entry
+	for i, d := range s.funDecls {
+		e := &entry{text: d, toks: map[string]bool{}}
+		smtTokens(d, e.toks)
+		f := strings.Fields(strings.NewReplacer("(", " ", ")", " ").Replace(d))
+		if len(f) >= 2 && (f[0] == "declare-fun" || f[0] == "define-fun" || f[0] == "declare-const" || f[0] == "define-fun-rec") {
+			e.defines = f[1]
+		} else {
+			e.isAxiom = true
+			e.defines = s.funNames[i]
+		}
+		es = append(es, e)
+	}
+	used := make([]bool, len(es))
+	for changed := true; changed; {
+		changed = false
+		for i, e := range es {
+			if used[i] {
+				continue
+			}
+			hit := false
+			if e.isAxiom {
+				// an axiom is relevant when every uninterpreted symbol it constrains is in use:
+				// approximated by its trigger symbols (the declared functions it mentions)
+				hit = true
+				any := false
+				for _, o := range es {
+					if !o.isAxiom && o.defines != "" && e.toks[o.defines] {
+						any = true
+						if !need[o.defines] {
+							hit = false
+						}
+					}
+				}
+				if !any {
+					hit = false
+				}
+			} else if need[e.defines] {
+				hit = true
+			}
+			if hit {
+				used[i] = true
+				changed = true
+				for t := range e.toks {
+					need[t] = true
+				}
+			}
+		}
+	}
+	var b strings.Builder
+	b.WriteString("(set-option :produce-models true)\n(set-logic ALL)\n")
+	for _, d := range s.sortDecls {
+		b.WriteString(d + "\n")
+	}
+	for i, e := range es {
+		if used[i] {
+			b.WriteString(e.text + "\n")
+		}
 	}
 	for _, a := range s.axioms {
 		b.WriteString("(assert " + a + ")\n")
